@@ -111,6 +111,88 @@ def ext_tree(n: dict) -> dict:
     return out
 
 
+# ------------------------------------------------------------------ nested sub-trees
+# A component may start a private sub-tree from its own prepare()/start() with a nested
+# start_component(SubRoot, {"sid": ...}, timeout=...).  The nested call is a start-up of its
+# own: its own watchdog, its own ComponentStartError (path relative to *its* root).  When
+# the component lets that error out, the outer call has to wrap it like any other failure.
+class SubRoot(Component):
+    def __init__(self, sid: str) -> None:
+        self.sid = sid
+        h = compreg.CURRENT
+        spec = h.subspecs[sid]
+        h.sim.log("sub_init", sid=sid, path="")
+        if spec.get("kid"):
+            self.add_component("kid", SubKid, sid=sid)
+        if spec.get("fail") == "init":
+            raise h.sub_exc(spec, "init")
+
+    async def prepare(self) -> None:
+        await compreg.CURRENT.sub_phase(self.sid, "", "prepare")
+
+    async def start(self) -> None:
+        await compreg.CURRENT.sub_phase(self.sid, "", "start")
+
+
+class SubKid(Component):
+    def __init__(self, sid: str) -> None:
+        self.sid = sid
+        compreg.CURRENT.sim.log("sub_init", sid=sid, path="kid")
+
+    async def start(self) -> None:
+        await compreg.CURRENT.sub_phase(self.sid, "kid", "start")
+
+
+def sub_model(spec: dict) -> dict:
+    """What a nested start_component() does, relative to the instant it is called."""
+    d0, d1, d2 = spec["d"]
+    kid = bool(spec.get("kid"))
+    total = d0 + (d1 if kid else 0.0) + d2
+    fail = spec.get("fail")
+    if fail == "kid" and not kid:
+        fail = None
+    T = spec["timeout"] if "timeout" in spec else 20
+    if fail:
+        ft = {"init": 0.0, "prepare": d0, "kid": d0 + d1, "start": total}[fail]
+        if T and fail != "init" and ft == T:
+            return {"kind": "tie", "dt": T}
+        if T and fail != "init" and ft > T:
+            return {"kind": "timeout", "dt": T}
+        where = {"init": ("creating", "", "SubRoot"), "prepare": ("preparing", "", "SubRoot"), "kid": ("starting", "kid", "SubKid"), "start": ("starting", "", "SubRoot")}[fail]
+        return {"kind": "fail", "dt": ft, "phase": where[0], "path": where[1], "ctype": where[2], "cause": f"SF:{spec['sid']}:{fail}"}
+    if T and total == T:
+        return {"kind": "tie", "dt": T}
+    if T and total > T:
+        return {"kind": "timeout", "dt": T}
+    return {"kind": "return", "dt": total}
+
+
+def expand_subs(plan: dict) -> tuple[dict, bool]:
+    """The plan as the outer tree sees it: a nested start-up is a pause of the modelled
+    length, followed (when it fails or times out and the component lets that out) by a
+    failure of the component's own phase.  Second value: some nested outcome is a tie."""
+    if not any(a[0] == "sub" for _p, n in walk(plan["tree"]) for ph in ("prepare", "start") for a in n.get(ph) or ()):
+        return plan, False
+    out = copy.deepcopy(plan)
+    tie = False
+    for _p, n in walk(out["tree"]):
+        for ph in ("prepare", "start"):
+            if n.get(ph) is None:
+                continue
+            acts: list = []
+            for a in n[ph]:
+                if a[0] != "sub":
+                    acts.append(a)
+                    continue
+                m = sub_model(a[1])
+                tie = tie or m["kind"] == "tie"
+                acts.append(["p", 0, m["dt"]])
+                if m["kind"] in ("fail", "timeout") and a[1].get("raise"):
+                    acts.append(["fail", "sub"])
+            n[ph] = acts
+    return out, tie
+
+
 # =============================================================================== harness
 class H:
     def __init__(self, sim: Sim, plan: dict) -> None:
@@ -132,6 +214,69 @@ class H:
         self.round = 0
         self.ndecoy = 0
         self.block_ended = anyio.Event()
+        self.subspecs: dict[str, dict] = {
+            a[1]["sid"]: a[1] for _p, n in walk(plan["tree"]) for ph in ("prepare", "start") for a in n.get(ph) or () if a[0] == "sub"
+        }
+
+    # ---- nested sub-trees
+    def sub_exc(self, spec: dict, where: str) -> BaseException:
+        e = FAIL_CLASSES.get(spec.get("fcls", "SimError"), SimError)(f"sub {spec['sid']} {where}")
+        e.tag = f"SF:{spec['sid']}:{where}"  # type: ignore[attr-defined]
+        self.sim.fault("raise_in_nested_tree")
+        self.sim.log("sub_fail", sid=spec["sid"], where=where)
+        return e
+
+    async def sub_phase(self, sid: str, spath: str, phase: str) -> None:
+        sim = self.sim
+        spec = self.subspecs[sid]
+        sim.log("sub_phase_begin", sid=sid, path=spath, phase=phase)
+        how = "done"
+        try:
+            d = spec["d"][{("", "prepare"): 0, ("kid", "start"): 1, ("", "start"): 2}[(spath, phase)]]
+            await sim.pause(1 if d == 0 else 0, d)
+            where = {("", "prepare"): "prepare", ("kid", "start"): "kid", ("", "start"): "start"}[(spath, phase)]
+            if spec.get("fail") == where:
+                raise self.sub_exc(spec, where)
+        except BaseException as e:
+            how = "cancelled" if is_cancel(e) else "failed"
+            raise
+        finally:
+            sim.log("sub_phase_end", sid=sid, path=spath, phase=phase, how=how)
+
+    async def sub(self, spec: dict, path: str, phase: str) -> None:
+        sim = self.sim
+        sid = spec["sid"]
+        kw: dict[str, Any] = {}
+        if "timeout" in spec:
+            kw["timeout"] = spec["timeout"]
+        ts = sim.now()
+        sim.log("sub_begin", sid=sid, path=path, phase=phase)
+        try:
+            comp = await start_component(SubRoot, {"sid": sid}, **kw)
+        except BaseException as e:
+            if is_cancel(e) or contains_cancel(e):
+                # the outer start-up ended first (or at the same instant)
+                # mixed: the nested start-up had an error of its own at the very instant the
+                # cancellation arrived (a group holding both comes out)
+                sim.log("sub_end", sid=sid, out="cancelled", dt=sim.now() - ts, mixed=not is_cancel(e))
+                raise
+            d: dict[str, Any] = {"cls": type(e).__name__}
+            if isinstance(e, ComponentStartError):
+                d.update(
+                    phase=e.phase,
+                    cpath=e.path,
+                    ctype=getattr(e.component_type, "__name__", str(e.component_type)),
+                    cause=getattr(e.__cause__, "tag", type(e.__cause__).__name__),
+                )
+            sim.log("sub_end", sid=sid, out="raised", dt=sim.now() - ts, **d)
+            if spec.get("raise"):
+                # the component lets the nested failure out of its own phase
+                e.tag = f"F:{path}:{phase}"  # type: ignore[attr-defined]
+                sim.fault("raise_in_" + phase)
+                sim.log("fail", path=path, phase=phase, tag=e.tag, nested=sid)  # type: ignore[attr-defined]
+                raise
+        else:
+            sim.log("sub_end", sid=sid, out="returned", dt=sim.now() - ts, is_subroot=type(comp) is SubRoot)
 
     def val(self, tag: str, falsy: bool = False) -> Any:
         class V:
@@ -214,6 +359,8 @@ class H:
                 await self.svc(a[1], path)
             elif op == "childctx":
                 await self.childctx(path, phase)
+            elif op == "sub":
+                await self.sub(a[1], path, phase)
             elif op == "stall":
                 sim.stall(a[1])
             elif op == "fail":
@@ -441,6 +588,8 @@ def plan_duration(plan: dict) -> float:
                     total += a[1]["fdur"]
                 elif a[0] == "svc":
                     total += a[1].get("delay", 0.0)
+                elif a[0] == "sub":
+                    total += sum(a[1]["d"])
     return total
 
 
@@ -770,10 +919,14 @@ def oracle(sim: Sim, plan: dict) -> list[dict]:
             v(f"{p}.deadlock", "deadlock" if not (p == "C06" and (_lost_key(plan) == "burst>50" or _overflow50(sim))) else "burst>50", "run deadlocked: a component waited forever although the plan's dependencies are acyclic")
         return V
 
+    oplan = plan
+    plan, sub_tie = expand_subs(plan)
     tree = plan["tree"]
     nodes = dict(walk(tree))
     rounds = 2 if plan.get("twice") else 1
     model = model_timeline(plan)
+    if sub_tie:
+        model["has_stall"] = True  # outcome at a nested timeout tie is either one
     fail_plan = None
     for path, n in nodes.items():
         if n.get("fail_init"):
@@ -931,6 +1084,10 @@ def oracle(sim: Sim, plan: dict) -> list[dict]:
             expect = "tie"
         else:
             expect = "return"
+        if any(r[4] == "sub_end" and r[5].get("mixed") for r in tr):
+            # a nested start-up failed at the very instant the outer one ended for another
+            # reason: two simultaneous failures, either of which (or a group) may come out
+            expect = "any"
         sim.probe("expect:" + expect)
         if expect == "return":
             if sc_end[4] != "sc_return":
@@ -1016,6 +1173,65 @@ def oracle(sim: Sim, plan: dict) -> list[dict]:
                     rule = "C05.return" if sc_end[4] == "sc_return" else "C07.clean"
                     v(rule, "activity_after_end", f"component activity after start_component ended: {r[4]} {r[5]}")
                     break
+
+        # ---------------------------------------------------------------- nested sub-trees
+        any_stall = any(a_[0] == "stall" for _p, n_ in walk(oplan["tree"]) for ph_ in ("prepare", "start") for a_ in n_.get(ph_) or ())
+        for path_, n_ in walk(oplan["tree"]):
+            for ph_ in ("prepare", "start"):
+                for a_ in n_.get(ph_) or ():
+                    if a_[0] != "sub":
+                        continue
+                    spec_ = a_[1]
+                    sid = spec_["sid"]
+                    sb = next((r for r in tr if r[4] == "sub_begin" and r[5]["sid"] == sid), None)
+                    se = next((r for r in tr if r[4] == "sub_end" and r[5]["sid"] == sid), None)
+                    if sb is None:
+                        continue
+                    sim.probe("nested_start")
+                    sub_ev = [r for r in tr if r[4] in ("sub_phase_begin", "sub_phase_end", "sub_init", "sub_fail") and r[5]["sid"] == sid]
+                    if se is None:
+                        if sc_end[4] == "sc_return":
+                            v("C05.return", "nested_unfinished", f"start_component returned while the nested start-up {sid} in {path_} had not ended")
+                        continue
+                    open_ph: dict = {}
+                    for r in sub_ev:
+                        if r[0] > se[0]:
+                            v("C07.clean", "nested_activity_after_end", f"nested start-up {sid} ended ({se[5]['out']}) but its components went on: {r[4]} {r[5]}")
+                            break
+                        if r[4] == "sub_phase_begin":
+                            open_ph[(r[5]["path"], r[5]["phase"])] = r
+                        elif r[4] == "sub_phase_end":
+                            open_ph.pop((r[5]["path"], r[5]["phase"]), None)
+                    else:
+                        if open_ph:
+                            v("C07.clean", "nested_still_running", f"nested start-up {sid} ended ({se[5]['out']}) while {sorted(open_ph)} had not exited")
+                    d_ = se[5]
+                    if d_["out"] == "cancelled":
+                        continue  # the outer start-up ended first (timeout, failure elsewhere)
+                    m_ = sub_model(spec_)
+                    sim.probe("nested:" + m_["kind"])
+                    if m_["kind"] == "tie" or any_stall:
+                        continue  # (a stalled scheduler makes every deadline in the run late)
+                    if m_["kind"] == "return":
+                        if d_["out"] != "returned":
+                            key_ = "nested_spurious_timeout" if d_.get("cls") == "TimeoutError" else "nested_unexpected_failure"
+                            v("C07.timeout" if d_.get("cls") == "TimeoutError" else "C07.error", key_, f"nested start-up {sid} (needs {m_['dt']}, timeout {spec_.get('timeout', 20)}) gave {d_}")
+                        elif exact_time and abs(d_["dt"] - m_["dt"]) > 1e-9:
+                            v("C05.timing", "nested", f"nested start-up {sid} took {d_['dt']}, its critical path is {m_['dt']}")
+                    elif m_["kind"] == "timeout":
+                        if d_["out"] != "raised" or d_.get("cls") != "TimeoutError":
+                            v("C07.timeout", "nested_not_raised", f"nested start-up {sid} cannot finish within its timeout {spec_.get('timeout', 20)} but gave {d_}")
+                        elif exact_time and abs(d_["dt"] - m_["dt"]) > 1e-9:
+                            v("C07.timeout", "nested_wrong_instant", f"nested start-up {sid}: TimeoutError after {d_['dt']}, its timeout is {m_['dt']}")
+                    else:
+                        if d_["out"] != "raised" or d_.get("cls") != "ComponentStartError":
+                            v("C07.error", "nested_not_component_start_error", f"nested start-up {sid} fails in {m_['phase']} of {m_['path']!r} but gave {d_}")
+                        else:
+                            for f_, k_ in (("phase", "phase"), ("cpath", "path"), ("ctype", "ctype"), ("cause", "cause")):
+                                if d_.get(f_) != m_[k_]:
+                                    v("C07.error", "nested_" + k_, f"nested start-up {sid}: ComponentStartError.{k_}={d_.get(f_)!r}, expected {m_[k_]!r}")
+                            if exact_time and abs(d_["dt"] - m_["dt"]) > 1e-9:
+                                v("C07.prompt", "nested_instant", f"nested start-up {sid}: failure struck after {m_['dt']} but it raised after {d_['dt']}")
 
         # ---------------------------------------------------------------- C06 waits
         published: dict[tuple, dict] = {}
@@ -1499,6 +1715,47 @@ def _wide_tree(g: "G", rng: random.Random) -> dict:
     return root
 
 
+def _add_subs(plan: dict, nodes: list, rng: random.Random, may_fail: bool) -> None:
+    """Nested start_component() calls inside phases.  At most one of them lets a failure
+    out (and only in plans that have no other failure), the others complete in time or have
+    their error swallowed by the component."""
+    cands = [(p, n, ph) for p, n in nodes for ph in ("prepare", "start") if n.get(ph) is not None]
+    if not cands:
+        return
+    for i in range(rng.choice((1, 1, 2))):
+        p, n, ph = rng.choice(cands)
+        acts = n[ph]
+        if any(a[0] == "fail" for a in acts):
+            continue
+        spec: dict[str, Any] = {
+            "sid": f"s{i}",
+            "d": [rng.choice((0.0, 0.25, 0.5, 1.0)), rng.choice((0.0, 0.5, 1.0, 2.0)), rng.choice((0.0, 0.25, 1.0))],
+            "kid": rng.random() < 0.7,
+        }
+        tm = rng.random()
+        if tm < 0.5:
+            spec["timeout"] = rng.choice((0.375, 0.75, 1.125, 1.625, 2.5, 5.0))
+        elif tm < 0.6:
+            spec["timeout"] = None
+        if rng.random() < 0.5:
+            spec["fail"] = rng.choice(("init", "prepare", "kid", "start"))
+            if spec["fail"] == "kid":
+                spec["kid"] = True
+            spec["fcls"] = rng.choice(("SimError", "SimLookup", "SimTimeout"))
+        m = sub_model(spec)
+        pos = rng.randint(0, len(acts))
+        if m["kind"] != "return" and may_fail and i == 0 and rng.random() < 0.6:
+            spec["raise"] = True
+            acts.insert(pos, ["sub", spec])
+            del acts[pos + 1 :]
+            may_fail = False
+        else:
+            acts.insert(pos, ["sub", spec])
+    F = model_timeline(expand_subs(plan)[0])["finish"]
+    if plan.get("timeout") and F is not None and rng.random() < 0.5:
+        plan["timeout"] = max(plan["timeout"], F + 1.0)
+
+
 def gen(rng: random.Random, tier: str, prop: str) -> dict:
     g = G(rng, tier, prop)
     backend = "asyncio" if rng.random() < 0.6 else "trio"
@@ -1574,6 +1831,8 @@ def gen(rng: random.Random, tier: str, prop: str) -> dict:
     else:
         if rng.random() < 0.5:
             plan["timeout"] = rng.choice((None, 20, 1000))
+    if prop == "C07" and rng.random() < 0.3:
+        _add_subs(plan, nodes, rng, may_fail=r >= fail_p)
     if prop == "C14":
         if rng.random() < 0.35:
             plan["twice"] = True
